@@ -1,7 +1,7 @@
 ----------------------------- MODULE SyntaxGen -----------------------------
 (***************************************************************************)
-(* Enumerates the bounded tree space of Syntax.tla, one tree per initial   *)
-(* state, evaluates the model's round trip on it and prints one JSON line  *)
+(* Enumerates the bounded tree space of Syntax.tla, one tree per state,    *)
+(* evaluates the model's round trip on it and prints one JSON line         *)
 (* per tree for the replay on the real parser and printer                  *)
 (* (harness: vh syntax-trees):                                             *)
 (*   t   the tree (the JSON shape the harness dumps real trees in)         *)
@@ -17,30 +17,41 @@ EXTENDS Syntax, Json, IOUtils
 
 CONSTANT StrLen      \* string literal bodies up to this many characters
 
-VARIABLE t
+VARIABLES t,        \* a seed, then a tree (or a string literal body)
+          seed      \* TRUE for the seed states
 
 \* e.g. SYNTAX_FIXES=23456 (all repairs), SYNTAX_FIXES=none (the pinned tree)
 EnvFixes == LET s == IOEnv.SYNTAX_FIXES
             IN { n \in {2, 3, 4, 5, 6} : \E i \in 1..Len(s) : SubSeq(s, i, i) = ToString(n) }
 
+\* The space is split into seeds (initial states); the trees of a seed are its successors, so that
+\* TLC's workers enumerate, print and round-trip them in parallel.
+E1 == IF Depth >= 1 THEN Exact(Depth - 1) ELSE {}
+U1 == IF Depth >= 1 THEN UpTo(Depth - 1) ELSE Atoms
+U2 == IF Depth >= 2 THEN UpTo(Depth - 2) ELSE {}
+Seed(kind, op, sub) == [k |-> "seed", kind |-> kind, op |-> op, sub |-> sub]
 TreeInit ==
-  LET E1 == IF Depth >= 1 THEN Exact(Depth - 1) ELSE {}
-      U1 == IF Depth >= 1 THEN UpTo(Depth - 1) ELSE {}
-      U2 == IF Depth >= 2 THEN UpTo(Depth - 2) ELSE {}
-  IN /\ \/ t \in (IF Depth = 0 THEN Atoms ELSE U1)
-        \/ \E o \in UnOps, e \in E1 : t = Un(o, e)
-        \/ \E c \in Ctxs, e \in E1 : t = Plug(c, e)
-        \/ \E o \in BinOps, l \in E1, r \in U1 : t = Bin(o, l, r)
-        \/ \E o \in BinOps, l \in U2, r \in E1 : t = Bin(o, l, r)
-     /\ ~InRegion(t)
-StrInit == t \in ValidBodies(StrLen)
-Next == UNCHANGED t
+  /\ seed = TRUE
+  /\ \/ t = Seed("small", "", A)
+     \/ \E o \in UnOps \cup Ctxs : t = Seed("un", o, A)
+     \/ \E o \in BinOps, x \in E1 : t = Seed("binL", o, x)       \* left operand of full depth
+     \/ \E o \in BinOps, x \in U2 : t = Seed("binR", o, x)       \* left operand shallower, right of full depth
+TreesOf(s) ==
+  CASE s.kind = "small" -> U1
+    [] s.kind = "un"    -> IF s.op \in UnOps THEN { Un(s.op, e) : e \in E1 } ELSE { Plug(s.op, e) : e \in E1 }
+    [] s.kind = "binL"  -> { Bin(s.op, s.sub, r) : r \in U1 }
+    [] s.kind = "binR"  -> { Bin(s.op, s.sub, r) : r \in E1 }
+TreeNext == seed /\ seed' = FALSE /\ t' \in { x \in TreesOf(t) : ~InRegion(x) }
+
+StrInit == seed = TRUE /\ t = Seed("str", "", A)
+StrNext == seed /\ seed' = FALSE /\ t' \in ValidBodies(StrLen)
+IsSeed == seed
 
 \* always TRUE; one line per tree
-EmitTree == PrintT(<<"BEHAVIOUR", ToJson([t |-> t, p |-> Prt(t), f |-> Full(t), ok |-> RoundTrip(t)])>>)
-EmitStr  == PrintT(<<"BEHAVIOUR", ToJson([raw |-> t, ok |-> StrRoundTrip(t)])>>)
+EmitTree == IsSeed \/ PrintT(<<"BEHAVIOUR", ToJson([t |-> t, p |-> Prt(t), f |-> Full(t), ok |-> RoundTrip(t)])>>)
+EmitStr  == IsSeed \/ PrintT(<<"BEHAVIOUR", ToJson([raw |-> t, ok |-> StrRoundTrip(t)])>>)
 
 \* the model's own verdict as invariants (used by the *MC configurations, which do not print)
-TreeRoundTrip == RoundTrip(t)
-StrRoundTripInv == StrRoundTrip(t)
+TreeRoundTrip == IsSeed \/ RoundTrip(t)
+StrRoundTripInv == IsSeed \/ StrRoundTrip(t)
 =============================================================================
